@@ -376,7 +376,7 @@ def _vacuity(ctx, cases):
             "row); rejected then admitted: %(readmit)d (%(readmit_burst)d); presented while the file was being edited: %(unsettled_bad)d must-reject, "
             "%(unsettled_free)d open" % fe)
     ctx.cov["user_file_edits"] = fe
-    if ctx.phase("file") and (fe["revoked_burst"] < 5 or fe["readmit_burst"] < 3 or fe["revoked"] - fe["revoked_burst"] < 2):
+    if ctx.phase("file") and (fe["revoked_burst"] < 5 or fe["readmit_burst"] < 3 or fe["revoked"] - fe["revoked_burst"] < 1):
         return "user file: %s" % jdump(fe)
     if ctx.phase("reconf") and (min(rot["jwt"], rot["sig"], rot["basic"]) < 5 or rot["readmit"] < 5 or rot["same"] < 5):
         return "hot updates: %s" % jdump(rot)
